@@ -47,9 +47,12 @@ import (
 	"go.etcd.io/etcd/api/v3/mvccpb"
 	"google.golang.org/grpc"
 	"google.golang.org/grpc/balancer"
+	"google.golang.org/grpc/codes"
 	"google.golang.org/grpc/credentials"
+	"google.golang.org/grpc/metadata"
 	"google.golang.org/grpc/resolver"
 	"google.golang.org/grpc/serviceconfig"
+	"google.golang.org/grpc/status"
 	"pgregory.net/rapid"
 	"verif.local/kit"
 
@@ -213,6 +216,7 @@ type c15wEtcd struct {
 	pending   map[string]int64 // revision returned by the last Range of the key that no watch has continued yet
 	loads     map[string]int   // per key: snapshots (Range) that a watch from the next revision has continued
 	auths     int
+	authOn    atomic.Bool // the registry requires authentication (set when the first user of the cluster brings an account)
 
 	gate *c15wGate
 	srv  *grpc.Server
@@ -308,9 +312,9 @@ func c15wServe(withTLS bool) (*c15wEtcd, string, error) {
 			lis.Close()
 			return nil, "", m.err
 		}
-		s.srv = grpc.NewServer(grpc.Creds(credentials.NewTLS(m.server)))
+		s.srv = grpc.NewServer(grpc.Creds(credentials.NewTLS(m.server)), grpc.UnaryInterceptor(s.authUnary), grpc.StreamInterceptor(s.authStream))
 	} else {
-		s.srv = grpc.NewServer()
+		s.srv = grpc.NewServer(grpc.UnaryInterceptor(s.authUnary), grpc.StreamInterceptor(s.authStream))
 	}
 	pb.RegisterKVServer(s.srv, s)
 	pb.RegisterWatchServer(s.srv, s)
@@ -454,11 +458,48 @@ func (s *c15wEtcd) Status(context.Context, *pb.StatusRequest) (*pb.StatusRespons
 	return &pb.StatusResponse{Header: s.header(), Version: "3.5.5", Leader: 1, RaftTerm: 1}, nil
 }
 
-func (s *c15wEtcd) Authenticate(context.Context, *pb.AuthenticateRequest) (*pb.AuthenticateResponse, error) {
+// Authentication like etcd with auth enabled: Authenticate checks the account, every other call
+// (except Authenticate and Maintenance.Status) must carry the token it handed out.
+const (
+	c15wUser, c15wPass = "user", "p@ss/word"
+	c15wToken          = "c15-token.1"
+)
+
+func (s *c15wEtcd) Authenticate(_ context.Context, r *pb.AuthenticateRequest) (*pb.AuthenticateResponse, error) {
 	s.mu.Lock()
 	defer s.mu.Unlock()
 	s.auths++
-	return &pb.AuthenticateResponse{Header: s.header(), Token: "c15-token"}, nil
+	if r.Name != c15wUser || r.Password != c15wPass {
+		return nil, status.Error(codes.InvalidArgument, "etcdserver: authentication failed, invalid user ID or password")
+	}
+	return &pb.AuthenticateResponse{Header: s.header(), Token: c15wToken}, nil
+}
+
+func (s *c15wEtcd) authorised(ctx context.Context, method string) error {
+	if !s.authOn.Load() || strings.HasSuffix(method, "/Authenticate") || strings.HasSuffix(method, "/Status") {
+		return nil
+	}
+	md, _ := metadata.FromIncomingContext(ctx)
+	for _, t := range md.Get("token") {
+		if t == c15wToken {
+			return nil
+		}
+	}
+	return status.Error(codes.InvalidArgument, "etcdserver: user name is empty")
+}
+
+func (s *c15wEtcd) authUnary(ctx context.Context, req any, info *grpc.UnaryServerInfo, h grpc.UnaryHandler) (any, error) {
+	if err := s.authorised(ctx, info.FullMethod); err != nil {
+		return nil, err
+	}
+	return h(ctx, req)
+}
+
+func (s *c15wEtcd) authStream(srv any, ss grpc.ServerStream, info *grpc.StreamServerInfo, h grpc.StreamHandler) error {
+	if err := s.authorised(ss.Context(), info.FullMethod); err != nil {
+		return err
+	}
+	return h(srv, ss)
 }
 
 func (s *c15wEtcd) LeaseGrant(_ context.Context, r *pb.LeaseGrantRequest) (*pb.LeaseGrantResponse, error) {
@@ -834,6 +875,20 @@ func c15wRunScript(sc c15wScript) (o c15wOutcome) {
 		}
 		return true
 	}
+	// bounded runs a call into the discovery code that talks to the registry (NewSubscriber, Build,
+	// Publisher.KeepAlive). Against a registry that answers, it returns after a few round trips, and against one
+	// that is down after DialTimeout; a call that has not returned after c15wPatience (e.g. a snapshot
+	// read that is retried for ever) is reported instead of waited for (its goroutine is left behind).
+	bounded := func(call func() error) error {
+		done := make(chan error, 1)
+		go func() { done <- call() }()
+		select {
+		case err := <-done:
+			return err
+		case <-time.After(c15wPatience):
+			return fmt.Errorf("harness-timeout: the call has not returned after %v of real time", c15wPatience)
+		}
+	}
 	// attach creates the subscriber of prefix op.P: directly, or (Via 1) inside the discov gRPC resolver.
 	attach := func(op c15wOp) (*subT, error) {
 		if op.Via == 1 {
@@ -854,7 +909,11 @@ func c15wRunScript(sc c15wScript) (o c15wOutcome) {
 				return nil, fmt.Errorf("harness: no resolver builder for scheme %s", u.Scheme)
 			}
 			cc := &c15wChan{}
-			r, err := b.Build(resolver.Target{URL: *u}, cc, resolver.BuildOptions{})
+			var r resolver.Resolver
+			err = bounded(func() (e error) {
+				r, e = b.Build(resolver.Target{URL: *u}, cc, resolver.BuildOptions{})
+				return
+			})
 			if err != nil {
 				return nil, err
 			}
@@ -866,14 +925,23 @@ func c15wRunScript(sc c15wScript) (o c15wOutcome) {
 		var opts []discov.SubOption
 		if op.Ac {
 			o.classes["option-etcd-account"] = true
-			opts = append(opts, discov.WithSubEtcdAccount("user", "pass"))
+			opts = append(opts, discov.WithSubEtcdAccount(c15wUser, c15wPass))
+			if len(subs) == 0 && len(pubs) == 0 {
+				// the first user of the cluster creates the client: the registry insists on the account from now on
+				o.classes["registry-requires-authentication"] = true
+				etcd.authOn.Store(true)
+			}
 		}
 		if sc.TLS && !tlsOnce {
 			tlsOnce = true
 			cert, key, ca := tlsFiles()
 			opts = append(opts, discov.WithSubEtcdTLS(cert, key, ca, false))
 		}
-		s, err := discov.NewSubscriber(eps, c15wPrefixes[op.P], opts...)
+		var s *discov.Subscriber
+		err := bounded(func() (e error) {
+			s, e = discov.NewSubscriber(eps, c15wPrefixes[op.P], opts...)
+			return
+		})
 		if err != nil {
 			return nil, err
 		}
@@ -910,7 +978,11 @@ func c15wRunScript(sc c15wScript) (o c15wOutcome) {
 		}
 		if op.Ac {
 			o.classes["option-etcd-account"] = true
-			opts = append(opts, discov.WithPubEtcdAccount("user", "pass"))
+			opts = append(opts, discov.WithPubEtcdAccount(c15wUser, c15wPass))
+			if len(subs) == 0 && len(pubs) == 0 {
+				o.classes["registry-requires-authentication"] = true
+				etcd.authOn.Store(true)
+			}
 		}
 		if sc.TLS && !tlsOnce {
 			tlsOnce = true
@@ -918,7 +990,7 @@ func c15wRunScript(sc c15wScript) (o c15wOutcome) {
 			opts = append(opts, discov.WithPubEtcdTLS(cert, key, ca, false))
 		}
 		p := discov.NewPublisher(eps, c15wPrefixes[op.P], c15wVal(op.Val), opts...)
-		if err := p.KeepAlive(); err != nil {
+		if err := bounded(p.KeepAlive); err != nil {
 			return err
 		}
 		pubs = append(pubs, &pubT{p: p})
@@ -1247,6 +1319,9 @@ func c15wGen(rt *rapid.T) c15wCase {
 			if s == 0 && i == 0 {
 				k = "pub"
 			}
+			if s == 1 && i == 0 {
+				k = "sub" // script 1 of every case: the first user brings an account, the registry requires authentication
+			}
 			op := c15wOp{K: k}
 			switch k {
 			case "sub", "subdown":
@@ -1255,6 +1330,9 @@ func c15wGen(rt *rapid.T) c15wCase {
 				if k == "sub" {
 					if rapid.IntRange(0, 2).Draw(rt, "resolver") == 0 {
 						op.Via = 1
+					}
+					if s == 1 && i == 0 {
+						op.Ac, op.Via = true, 0
 					}
 					nsub++
 				} else {
